@@ -50,20 +50,23 @@ Definition base_of_gen (g : gdef) : QBase am :=
     and nothing that type-checks in Rust reaches them (impl table, C06). *)
 Definition full_of_gen (g : gdef) : QFull am :=
   let b := base_of_gen g in
-  match gd_path g with
-  | PRef => mkQFull am b
-      (tmpl_PartialEq_Qty_Self_PRef b) (tmpl_PartialOrd_Qty_none_PRef b)
-      (tmpl_Add_Qty_Self_PRef b) (tmpl_Sub_Qty_Self_PRef b) (tmpl_Div_Qty_Self_PRef b)
-      (HasRefUnit__fit b)
-  | PNoRef => mkQFull am b
-      (fun x y => Ok (tmpl_PartialEq_Qty_Self_PNoRef b x y)) (fun x y => Ok (tmpl_PartialOrd_Qty_none_PNoRef b x y))
-      (tmpl_Add_Qty_Self_PNoRef b) (tmpl_Sub_Qty_Self_PNoRef b) (tmpl_Div_Qty_Self_PNoRef b)
-      (fun _ => Panic POther)
-  | PSingle => mkQFull am b
-      (fun _ _ => Panic POther) (fun _ _ => Panic POther)
-      (tmpl_Add_Qty_Self_PSingle b) (tmpl_Sub_Qty_Self_PSingle b) (tmpl_Div_Qty_Self_PSingle b)
-      (fun _ => Panic POther)
-  end.
+  mkQFull am b
+    (match gd_path g with
+     | PRef => tmpl_PartialEq_Qty_Self_PRef b
+     | PNoRef => fun x y => Ok (tmpl_PartialEq_Qty_Self_PNoRef b x y)
+     | PSingle => fun _ _ => Panic POther end)
+    (match gd_path g with
+     | PRef => tmpl_PartialOrd_Qty_none_PRef b
+     | PNoRef => fun x y => Ok (tmpl_PartialOrd_Qty_none_PNoRef b x y)
+     | PSingle => fun _ _ => Panic POther end)
+    (match gd_path g with
+     | PRef => tmpl_Add_Qty_Self_PRef b | PNoRef => tmpl_Add_Qty_Self_PNoRef b | PSingle => tmpl_Add_Qty_Self_PSingle b end)
+    (match gd_path g with
+     | PRef => tmpl_Sub_Qty_Self_PRef b | PNoRef => tmpl_Sub_Qty_Self_PNoRef b | PSingle => tmpl_Sub_Qty_Self_PSingle b end)
+    (match gd_path g with
+     | PRef => tmpl_Div_Qty_Self_PRef b | PNoRef => tmpl_Div_Qty_Self_PNoRef b | PSingle => tmpl_Div_Qty_Self_PSingle b end)
+    (match gd_path g with
+     | PRef => HasRefUnit__fit b | _ => fun _ => Panic POther end).
 
 (** the dimensionless quantity: AmountT with its unit One (src/lib.rs impls) *)
 Definition amount_base : QBase am :=
